@@ -57,7 +57,7 @@ def gen_lib_package(rng, ids, path, idx, earlier):
     # types with the same names in every package
     w("type T struct{ X int }")
     w("type U struct{ X int }")
-    w("type L int")
+    w("type L %s" % ["int", "int32", "int16", "uint8"][idx % 4])    # same name, different layout per package
     w("type Box[V any] struct{ V V }")
     w("type Pair[A any, B any] struct {\n\tA A\n\tB B\n}")
     w("type I interface{ M() int }\n")
